@@ -5,7 +5,7 @@ EXTENDS AccOuterScn, Json
 CONSTANTS OutFile, Tier
 VARIABLE x
 
-Cases == {Scenario(fl, g, FALSE) : fl \in Flags, g \in Cuts}
+Cases == IF Tier = "race" THEN Races ELSE Races \cup {Scenario(fl, g, FALSE) : fl \in Flags, g \in Cuts}
          \cup {LET sc == Scenario(fl, 0, TRUE) IN [sc EXCEPT !.g = BlockGas(sc)] : fl \in Flags}    \* BlockGas does not depend on g
          \cup {Big(s, f) : s \in BOOLEAN, f \in BOOLEAN} \cup {Burn} \cup {Tight(g) : g \in {99999, 100000, 110000, 150000}}
 ASSUME ndJsonSerialize(OutFile, SetToSeq(Cases))
